@@ -129,6 +129,11 @@ func setterPrec(r *hx.RNG, hint int) int64 {
 	if r.Chance(12) {
 		return 0
 	}
+	if hint > 0 && r.Chance(3) {
+		// a precision from the top of the range: the argument is stored exactly, nothing is allocated for the precision
+		// (hint 0 marks SetRat, which divides at the receiver's precision)
+		return int64(hugePrec(r))
+	}
 	if r.Chance(40) && hint > 1 {
 		return int64(maxI(1, hint+r.Range(-3, 2)))
 	}
